@@ -768,13 +768,24 @@ func (fr *Frame) functionalElem(st *State, q *PtrV, t types.Type) Value {
 		return nil
 	}
 	v, F := fr.v, fr.v.F
-	u := v.ufunOf(st, q.Obj)
-	if u == nil {
-		return nil
-	}
 	idx := q.Path[0].T
 	if idx == nil {
 		idx = F.I64(int64(q.Path[0].I)) // a constant index
+	}
+	if _, isPtr := t.Underlying().(*types.Pointer); isPtr && q.Obj.UFrom == nil {
+		// a slice of pointers (a variadic list of points): the element at index t points to "the t-th pointee", an
+		// object with arbitrary contents whose identity is the index - two reads at equal indices denote the same
+		// pointee for same(); distinct indices are assumed to hold distinct pointers only as far as same() says so
+		v.fresh++
+		nv := v.symValue(fmt.Sprintf("%s!elem!%d", sanitize(q.Obj.Name), v.fresh), t, q.Obj.Entry)
+		if pv, okp := nv.(*PtrV); okp && pv.Obj != nil {
+			pv.Obj.URowOf, pv.Obj.URowIdx, pv.Obj.UVer = q.Obj, idx, st.uver[q.Obj]
+		}
+		return nv
+	}
+	u := v.ufunOf(st, q.Obj)
+	if u == nil {
+		return nil
 	}
 	root := q.Obj
 	if q.Obj.UFrom != nil {
